@@ -1191,8 +1191,15 @@ class AI(object):
             return None
         for idx in loc[1:]:
             m = re.match(r'^\[(\d+)\]$', idx) if isinstance(idx, str) else None
+            m2 = re.match(r'^\[(\d+):(\d+)\]$', idx) if isinstance(idx, str) else None
             if m and isinstance(vals, list) and int(m.group(1)) < len(vals):
                 vals = vals[int(m.group(1))]
+            elif m2 and isinstance(vals, list) and int(m2.group(2)) < len(vals):
+                # a range of rows: element-wise hull, entries become (lo, hi)
+                rows = vals[int(m2.group(1)):int(m2.group(2)) + 1]
+                if not rows or not all(isinstance(r, list) and len(r) == len(rows[0]) and all(isinstance(x, int) for x in r) for r in rows):
+                    return None
+                vals = [(min(r[i] for r in rows), max(r[i] for r in rows)) for i in range(len(rows[0]))]
             else:
                 return None
         return vals if isinstance(vals, list) else None
@@ -1248,6 +1255,9 @@ class AI(object):
         if re.search(r'\[\d+\]', t or ''):
             # row of a 2-d array: keep as pointer-able location
             c = pv.off.const() if pv.off is not None else None
+            if c is None and pv.off is not None and pv.off.lo not in (INF, -INF) and pv.off.hi not in (INF, -INF) and \
+                    0 <= pv.off.lo <= pv.off.hi <= pv.off.lo + 8:
+                return StructV(pv.target + ('[%d:%d]' % (pv.off.lo, pv.off.hi),))
             return StructV(pv.target + (('[%d]' % c) if c is not None else '[*]',))
         if pv.target is not None and pv.off is not None:
             c = pv.off.const()
@@ -1257,9 +1267,9 @@ class AI(object):
                     return v
             arr = self._const_array(pv.target, u)
             if arr is not None:
-                vals = [x for i, x in enumerate(arr) if pv.off.lo <= i <= pv.off.hi and isinstance(x, int)]
+                vals = [x for i, x in enumerate(arr) if pv.off.lo <= i <= pv.off.hi and isinstance(x, (int, tuple))]
                 if vals:
-                    return Int(min(vals), max(vals))
+                    return Int(min(x if isinstance(x, int) else x[0] for x in vals), max(x if isinstance(x, int) else x[1] for x in vals))
             if pv.target[0] == 'str':
                 return self._str_chars(pv.target, pv.off, t)
         return self.top_of(t)
